@@ -27,12 +27,26 @@ func runOps2(kp kindPair, q2k QK, ops string) []vrt.Violation { return runOpsX(k
 func runOps(kp kindPair, ops string) []vrt.Violation { return runOpsX(kp, Fifo, false, ops) }
 
 func runOpsX(kp kindPair, q2k QK, two bool, ops string) []vrt.Violation {
+	in := opsInstance(kp, q2k, two, ops)
+	x := vrt.Run(nil, nil, in.Setup, in.Body)
+	if x.EngineErr != "" {
+		return []vrt.Violation{{Prop: "engine", Clause: "engine", Detail: x.EngineErr}}
+	}
+	v, _ := in.Check(x)
+	return v
+}
+
+// opsInstance is one fresh instance of the closed program "this call sequence on a fresh worker", for one execution:
+// under the canonical schedule (runOpsX) or under every schedule within a deviation bound (enumOpsNB).
+func opsInstance(kp kindPair, q2k QK, two bool, ops string) *vrt.Instance {
 	h := NewH()
 	h.Shape = Gated
 	h.CrashProp, h.HangProp = "C03", "C03"
 	h.Beh[1], h.Beh[3] = BErr, BPanic
-	var x *vrt.Exec
-	x = vrt.Run(nil, nil, func(sc *vrt.Sched) { sc.Monitor = h.monitor }, func() {
+	in := &vrt.Instance{}
+	in.Setup = func(sc *vrt.Sched) { sc.Monitor = h.monitor }
+	in.Check = func(x *vrt.Exec) ([]vrt.Violation, uint64) { return h.Judge(x) }
+	in.Body = func() {
 		w := h.NewWorker(kp.W, 2)
 		q := w.Bind(kp.Q, nil)
 		var q2, q3 *Q
@@ -141,12 +155,44 @@ func runOpsX(kp kindPair, q2k QK, two bool, ops string) []vrt.Violation {
 		h.Quiesce(false)
 		w.Restart()
 		h.End()
-	})
-	if x.EngineErr != "" {
-		return []vrt.Violation{{Prop: "engine", Clause: "engine", Detail: x.EngineErr}}
 	}
-	h.Judge(x)
-	return h.V
+	return in
+}
+
+// enumOpsNB: every sequence of the given length, each explored under every schedule with at most `bound` non-default
+// choices (the explorer of engine A run per sequence): combinations of calls x interleavings.
+func enumOpsNB(r *SeqReport, label string, mk func(ops string) *vrt.Instance, alphabet string, depth, bound int, prefix string) {
+	seen := map[string]bool{}
+	var rec func(s string)
+	rec = func(s string) {
+		if len(s) == depth {
+			e := &vrt.Explorer{New: func() *vrt.Instance { return mk(s) }, Mode: vrt.NB, NShards: 1}
+			st := e.RunBound(bound)
+			r.Traces++
+			r.States += st.Execs
+			r.Transitions += st.Transitions
+			if e.EngineErr != "" || !st.Completed {
+				r.Notes = append(r.Notes, "ENGINE: "+e.EngineErr+" ("+label+" ops="+s+")")
+				r.Exhaustive = false
+			}
+			for _, f := range e.FoundSorted() {
+				key := f.V.Clause + "|" + f.V.Detail
+				if !seen[key] && len(r.V) < 40 {
+					seen[key] = true
+					r.V = append(r.V, SeqViolation{f.V.Prop, f.V.Clause, f.V.Detail, fmt.Sprintf("%s ops=%s schedule=%v", label, s, f.Choices)})
+				}
+			}
+			return
+		}
+		for i := 0; i < len(alphabet); i++ {
+			rec(s + string(alphabet[i]))
+		}
+	}
+	rec(prefix)
+	if depth > r.MaxDepth {
+		r.MaxDepth = depth
+	}
+	r.Distinct = r.States
 }
 
 func enumOps(r *SeqReport, kp kindPair, alphabet string, depth int, prefix string) {
@@ -192,6 +238,30 @@ func enumOpsWith(r *SeqReport, label string, run func(string) []vrt.Violation, a
 }
 
 var opsProps = []string{"C01", "C02", "C03", "C04", "C05", "C06", "C07", "C08", "C09", "C10", "C16", "C17", "C18"}
+
+func init() {
+	for _, kp := range []kindPair{{Plain, Fifo}, {ErrW, Prio}, {ResW, Fifo}, {Plain, Pers}} {
+		kp := kp
+		for i := 0; i < len(opsAlphabet); i++ {
+			first := string(opsAlphabet[i])
+			for _, d := range []int{3, 4} {
+				d := d
+				only := "quick"
+				if d == 4 {
+					only = "thorough"
+				}
+				Register(&Scenario{
+					Name: fmt.Sprintf("seq-ops-nb1/%s/d%d/%s", kp, d, first), Props: opsPropsFor(kp), Seq: true, Only: only,
+					SeqRun: func(r *SeqReport) {
+						r.Exhaustive = true
+						enumOpsNB(r, kp.String(), func(s string) *vrt.Instance { return opsInstance(kp, Fifo, false, s) }, opsAlphabet, d, 1, first)
+						r.Notes = append(r.Notes, fmt.Sprintf("every sequence of %d API calls starting with %s over the alphabet %s, each under every schedule with at most one non-default choice (states = executions), judged by the whole oracle suite", d, first, opsAlphabet))
+					},
+				})
+			}
+		}
+	}
+}
 
 const opsAlphabet2 = "AaOPWRSTUDXxCQFG"
 
